@@ -846,15 +846,22 @@ def lm_accum(ctx, R):
         cs = [c for c in calls_in(l)]
         want_end = "right" if ntext(l.iter) == "self.cOut" else "left"
         okv = okv and any(len(c.args) == 2 and ntext(c.args[0]) == ntext(l.target) and ntext(c.args[1]) == "%s.%s" % (ntext(l.target), want_end) for c in cs)
-    ffs = [x for x in P.nested(h) if not x.is_lambda]
+    ffs = [x for x in P.nested(h)]
     if ffs:
         ff = ffs[0]
-        ev = new_eval(P)
-        env = Env({h.params[1]: Opaque("prev"), h.params[2]: Opaque("F"), h.params[0]: Opaque("self")}, ev.module_env("vpsc"), "vpsc", h)
-        st = State(Env({}, env, "vpsc", ff))
-        r = ev.call_closure(Closure(ff, env), [Opaque("c"), Opaque("n")], {}, st)
-        kk = key(r)
-        okv = okv and kk.startswith("phi(truth(c.active), phi(cmp(ne, prev, n), F(c, n)") or okv and kk.startswith("phi(truth(c.active), phi(cmp(ne, n, prev), F(c, n)")
+        res = {}
+        for active in (True, False):
+            for same in (True, False):
+                ev = new_eval(P)
+                ev.assume("truth(c.active)", active)
+                ev.assume_order(Opaque("prev"), Opaque("n"), "eq" if same else "ne")
+                env = Env({h.params[1]: Opaque("prev"), h.params[2]: Opaque("F"), h.params[0]: Opaque("self")}, ev.module_env("vpsc"), "vpsc", h)
+                st = State(Env({}, env, "vpsc", ff))
+                calls_ = []
+                ev.on_call = lambda fv, args, kwargs, node, st_, calls_=calls_: (calls_.append([key(a) for a in args]), Opaque("RES"))[1] if isinstance(fv, Opaque) and fv.text == "F" else None
+                ev.call_closure(Closure(ff, env), [Opaque("c"), Opaque("n")], {}, st)
+                res[(active, same)] = calls_
+        okv = okv and res[(True, False)] == [["c", "n"]] and not res[(True, True)] and not res[(False, False)] and not res[(False, True)]
     R.check(okv, "VPSC.LM-ACCUM", h.qual, where(h), "visits active out/in constraints, never back to prev", "visitNeighbours does not visit exactly the active constraints of both directions except the one leading back")
 
 
@@ -945,11 +952,20 @@ def iter_rule(ctx, R):
         l = loops[0]
         ev = new_eval(P, inline_filter=lambda fn: False)
         st = ev.new_state(f)
-        for n in ast.walk(l["stmt"].test):
-            if isinstance(n, ast.Name) and n.id not in ("abs", "Solver", "self"):
+        for n in ast.walk(l["stmt"]):
+            if isinstance(n, ast.Name) and n.id not in ("abs", "Solver", "self", "maxsize", "True", "False"):
                 st.env.vars[n.id] = Opaque(n.id)
-        c = ev.cond(l["stmt"].test, st)
-        detail = show(c)
+        wtest = l["stmt"].test
+        if isinstance(wtest, ast.Constant) and wtest.value is True:
+            # loop-and-a-half: `if <exit>: break`
+            brk = [n for n in ast.walk(l["stmt"]) if isinstance(n, ast.If) and any(isinstance(x, (ast.Break, ast.Return)) for x in n.body) and not n.orelse]
+            c = None
+            if len(brk) == 1:
+                from ..sym import cnot
+                c = cnot(ev.cond(brk[0].test, st))
+        else:
+            c = ev.cond(wtest, st)
+        detail = show(c) if c is not None else "no single exit test"
         if isinstance(c, Cond) and c.tree[0] == "cmp" and c.tree[1] in ("lt", "le"):
             thr, val = num_const(c.tree[2]), c.tree[3]
             if thr is not None and isinstance(as_num(val), Num):
